@@ -137,6 +137,17 @@ SOILS = {
                      "layers": [(0.3, 0.06, 0.13, 0.36, 3000.0, 100),
                                 (0.5, 0.20, 0.32, 0.47, 225.0, 100),
                                 (3.0, 0.39, 0.54, 0.55, 20.0, 100)]},
+    # strongly contrasting layers: what is field capacity for the sand is far below air-dry for the clay (and the clay's is above the sand's saturation)
+    "sandOverClay": {"kind": "layers", "kw": {"cn": 65, "rew": 6},
+                     "layers": [(0.2, 0.06, 0.13, 0.36, 1500.0, 100),
+                                (3.0, 0.39, 0.54, 0.55, 35.0, 100)]},
+    "clayOverSand": {"kind": "layers", "kw": {"cn": 77, "rew": 10},
+                     "layers": [(0.3, 0.39, 0.54, 0.55, 35.0, 100),
+                                (3.0, 0.06, 0.13, 0.36, 1500.0, 100)]},
+    # two layers with the SAME field capacity but different saturation (the upper one has the smaller pore space)
+    "sameFcDiffSat": {"kind": "layers", "kw": {"cn": 61, "rew": 9},
+                      "layers": [(0.5, 0.10, 0.25, 0.41, 600.0, 100),
+                                 (3.0, 0.12, 0.25, 0.50, 400.0, 100)]},
     "pen40": {"kind": "layers", "kw": {"cn": 61, "rew": 9},
               "layers": [(0.5, 0.15, 0.31, 0.46, 500.0, 100),
                          (0.4, 0.23, 0.39, 0.50, 125.0, 40),
@@ -151,7 +162,7 @@ SOILS = {
 }
 
 
-LAYERED = {"Paddy", "TunisLocal", "lowKsub", "fastOverSlow", "pen40", "fc4dec", "texture"}
+LAYERED = {"Paddy", "TunisLocal", "lowKsub", "fastOverSlow", "pen40", "fc4dec", "texture", "sandOverClay", "clayOverSand", "sameFcDiffSat"}
 
 
 def soil_spec(label):
@@ -412,9 +423,10 @@ def expected_zgw(cfg, time_span):
         return np.full(n, vals[0])
     out = np.full(n, np.nan)
     if gw.get("method", "Constant") == "Constant":
+        order = sorted(range(len(dates)), key=lambda j: dates[j])        # observations may be listed in any order
         for i, d in enumerate(time_span):
-            k = [j for j in range(len(dates)) if dates[j] <= d]
-            out[i] = vals[k[-1]] if k else vals[0]
+            k = [j for j in order if dates[j] <= d]
+            out[i] = vals[k[-1]] if k else vals[order[0]]
         return out
     # Variable: linear interpolation in time between observations (observations lie on days of
     # the window, first/last day given)
@@ -760,7 +772,7 @@ def _monitor(cfg, prop, model, F, res, max_days):
         fs = model._outputs.final_stats
         wfa = table(model._outputs.water_flux)
         cga = table(model._outputs.crop_growth)
-        seasons_in_table = [int(x) for x in list(fs["Season"])]
+        seasons_in_table = [int(x) if x == x else None for x in list(fs["Season"])]      # a row without a season number (NaN) is a row too many
         if seasons_in_table != harvested:
             F.add("C06.one_row_per_harvested_season_in_order",
                   "exactly one summary row per season that reached harvest, in season order",
@@ -768,6 +780,8 @@ def _monitor(cfg, prop, model, F, res, max_days):
                   abs(len(seasons_in_table) - len(harvested)) + 1.0)
         for ridx in range(len(fs)):
             row = fs.iloc[ridx]
+            if row["Season"] != row["Season"]:
+                continue
             k = int(row["Season"])
             h = int(row["Harvest Date (Step)"])
             day = cga[h]
@@ -1113,7 +1127,7 @@ FIELD_LEVELS = [
     ("cnadj", {"curve_number_adj": True, "curve_number_adj_pct": 20}, "same"),
     ("fallowbunds", None, {"bunds": True, "z_bund": 0.08, "bund_water": 10}),
 ]
-GW_LEVELS = ["none", "c2.66", "c1.2", "c0.6", "c0.25", "vdeepshallow", "vshallow", "cstep", "c7", "voutside"]
+GW_LEVELS = ["none", "c2.66", "c1.2", "c0.6", "c0.25", "vdeepshallow", "vshallow", "cstep", "c7", "voutside", "cstep_unsorted"]
 IWC_LEVELS = ["FC", "WP", "SAT", ("Pct", 50), ("PctDepth", [0.3, 1.0], [30, 80]),
               ("NumLayer", [0.25, 0.6, 0.4])]
 WX_LEVELS = [{"kind": "tunis"}, {"kind": "champion"}, {"kind": "syn", "pattern": "storm"},
@@ -1146,7 +1160,7 @@ def _gw_spec(level, start, end):
     fmt = lambda d: d.strftime("%Y/%m/%d")
     if level == "none":
         return None
-    if level.startswith("c") and level != "cstep":
+    if level.startswith("c") and not level.startswith("cstep"):
         return {"label": "const" + level[1:], "method": "Constant", "dates": [fmt(s)], "values": [float(level[1:])]}
     mid1 = s + (e - s) / 3
     mid2 = s + 2 * (e - s) / 3
@@ -1162,6 +1176,8 @@ def _gw_spec(level, start, end):
         # observations before the first and after the last simulated day (interpolated in time across the window)
         return {"label": "varout1.2-0.4", "method": "Variable", "dates": [fmt(s - pd.Timedelta(days=61)), fmt(mid1), fmt(e + pd.Timedelta(days=45))],
                 "values": [1.2, 0.4, 2.2]}
+    if level == "cstep_unsorted":
+        return {"label": "stepunsorted", "method": "Constant", "dates": [fmt(mid2), fmt(s), fmt(mid1)], "values": [1.5, 2.0, 0.8]}
     if level == "cstep":
         return {"label": "step2-0.8", "method": "Constant", "dates": [fmt(s), fmt(mid1), fmt(mid2)],
                 "values": [2.0, 0.8, 1.5]}
@@ -1185,12 +1201,13 @@ def _schedule(p0, nseasons, start, end):
     return out
 
 
-def make_cfg(idx, crop, soil_label, irr, field, gwlevel, iwc, wx, off, nseasons, pre_days, rng, wseed):
+def make_cfg(idx, crop, soil_label, irr, field, gwlevel, iwc, wx, off, nseasons, pre_days, rng, wseed, end_shift_days=0):
     wx = dict(wx)
     if wx["kind"] == "syn":
         wx["seed"] = wseed
     planting = planting_for(crop)
     p0, start, end = _dates(crop, planting, wx, rng, nseasons, pre_days)
+    end = end + pd.Timedelta(days=end_shift_days)        # negative: the window ends in the middle of the last season (never harvested)
     irr = copy.deepcopy(irr)
     if irr.get("schedule") == "rel":
         irr["schedule"] = _schedule(p0, nseasons, start, end)
@@ -1238,6 +1255,16 @@ def anchors(rng, wseed):
     # season cut short by an explicit latest harvest date (before maturity), off-season simulated, daily irrigation
     add("Maize", "Loam", IRR_LEVELS[11], fld["plain"], "none", "FC", {"kind": "champion"}, True, 2, 10)
     A[-1]["crop_kw"] = {"harvest_date": "08/15"}
+    # shallow tables under a soil whose layers share the field capacity but not the saturation
+    add("Maize", "sameFcDiffSat", IRR_LEVELS[0], fld["plain"], "c1.2", "FC", {"kind": "champion"}, False, 1, 0)
+    add("Wheat", "sameFcDiffSat", IRR_LEVELS[1], fld["plain"], "vshallow", "FC", {"kind": "tunis"}, True, 2, 10)
+    # the window ends in the middle of the last season: that season is planted but never harvested (no summary row for it)
+    add("Maize", "SandyLoam", IRR_LEVELS[0], fld["plain"], "none", "FC", {"kind": "champion"}, False, 3, 0, end_shift_days=-290)
+    add("Maize", "Loam", IRR_LEVELS[4], fld["plain"], "none", "FC", {"kind": "champion"}, True, 3, 0, end_shift_days=-290)
+    # net irrigation on strongly contrasting layers (each compartment is refilled to ITS layer's threshold), and with a binding seasonal maximum
+    add("Maize", "sandOverClay", IRR_LEVELS[9], fld["plain"], "none", ("Pct", 50), {"kind": "champion"}, False, 2, 0)
+    add("Wheat", "clayOverSand", IRR_LEVELS[10], fld["plain"], "none", ("Pct", 50), {"kind": "tunis"}, False, 2, 0)
+    add("Wheat", "SandyLoam", {"method": 4, "NetIrrSMT": 80, "MaxIrrSeason": 10}, fld["plain"], "none", "WP", {"kind": "tunis"}, False, 2, 0)
     # degree-day methods 1 and 2 (36 of the 37 built-in crops use method 3) on weather with cold days
     add("MaizeChampionGDD", "SandyLoam", IRR_LEVELS[0], fld["plain"], "none", "FC", {"kind": "champion"}, False, 6, 0)   # six springs: cold days after planting
     add("Maize", "SandyLoam", IRR_LEVELS[0], fld["plain"], "none", "FC", {"kind": "champion"}, False, 6, 0)
